@@ -197,9 +197,11 @@ func Execute(
 		for i := 1; i < attempt; i++ {
 			multiplier *= config.BackoffFactor
 		}
-		backoff := time.Duration(float64(config.InitialBackoff) * multiplier)
-		if backoff > config.MaxBackoff {
-			backoff = config.MaxBackoff
+		// Apply the cap in floating point before converting: 30s * 10^9 does not fit a time.Duration,
+		// and converting an out-of-range float64 yields an implementation-specific (negative) value.
+		backoff := config.MaxBackoff
+		if scaled := float64(config.InitialBackoff) * multiplier; scaled < float64(config.MaxBackoff) {
+			backoff = time.Duration(scaled)
 		}
 
 		// Wait before retry
